@@ -89,6 +89,7 @@ class Engine:
         from . import models, models2, models3, models4
         models.register(self); models2.register2(self); models3.register3(self); models4.register4(self); models4.register_path(self)
         from . import models5; models5.register5(self)
+        from . import models6; models6.register6(self)
 
     # ---------------- forking
     def choose(self, n):
@@ -355,6 +356,9 @@ class Engine:
         if s.startswith('b"'): return Ref([Str(eval(s))], 0)
         m = re.fullmatch(r"'(.)'", s)
         if m: return ord(m.group(1))
+        if s in ('std::path::MAIN_SEPARATOR', 'path::MAIN_SEPARATOR'): return ord('/')          # unix model of std::path (models4.register_path)
+        m = re.fullmatch(r'(?:core::num::<impl )?([ui])(\d+|size)>?::BITS', s)
+        if m: return 64 if m.group(2) == 'size' else int(m.group(2))
         m = re.fullmatch(r'(?:core::num::<impl )?([ui])(\d+|size)>?::(MAX|MIN)', s)
         if m:
             bits = 64 if m.group(2) == 'size' else int(m.group(2))
@@ -490,6 +494,16 @@ class Engine:
             return Agg([self.operand(fr, x) for x in split_top(s[1:-1])], 'tup')
         # coroutine / closure / struct aggregate
         m = re.fullmatch(r'(\{coroutine@[^}]*\}|\{(?:async )?closure@[^}]*\}|[^{]+?) \{ (.*) \}', s)
+        if not m and s.endswith(' }') and not s.startswith('{') and '{closure@' in s:
+            # struct aggregate whose generic arguments mention closure types: `Type::<.., {closure@..}> { fields }`
+            d = 0; j = len(s) - 1
+            while j >= 0:
+                if s[j] == '}': d += 1
+                elif s[j] == '{':
+                    d -= 1
+                    if d == 0: break
+                j -= 1
+            if j > 0 and s[j - 1] == ' ': m = re.fullmatch(r'(.*)', s[:j - 1]); m = type('M', (), {'group': (lambda self, i, _h=s[:j - 1], _b=s[j + 2:-2]: _h if i == 1 else _b)})()
         if m:
             head = m.group(1); fields = [self.operand(fr, x.split(': ', 1)[1]) for x in split_top(m.group(2))]
             if head.startswith('{coroutine@'):
@@ -527,6 +541,11 @@ class Engine:
         path = strip_lifetimes(s); segs = split_path(path)
         if len(segs) >= 2 and self._is_enum(last_seg(segs[-2])):
             return Enum(re.sub(r'<.*', '', segs[-1]), [], last_seg(segs[-2]))
+        if len(segs) == 1 and re.fullmatch(r'[A-Z]\w*', s):
+            # bare variant of a std enum in the prelude-like printing of rustc (`_1 = AlreadyExists;`): unique owner among the std enums
+            owners = [k for k, vs in STD_ENUMS.items() if s in vs]
+            if len(owners) == 1 and s not in ('None',): return Enum(s, [], owners[0])
+            if s == 'None': return NONE()
         if re.fullmatch(r'[\w:<>, &\[\];]+', s): return Agg([], type_key(path))
         raise EngineError('rvalue ' + s)
 
@@ -684,7 +703,7 @@ class Engine:
         if fn.name not in self.touched: self.touched[fn.name] = fn
         while True:
             block = blocks[bb]
-            for st in block[:-1]:
+            for sti, st in enumerate(block[:-1]):
                 self.stats['steps'] += 1
                 if st.startswith(('StorageLive', 'StorageDead', 'nop', 'FakeRead', 'PlaceMention', 'Retag', 'Coverage', 'AscribeUserType', 'ConstEvalCounter')): continue
                 m = re.match(r'discriminant\((.*)\) = (\d+)$', st)
@@ -698,6 +717,7 @@ class Engine:
                     lhs, rhs = st[:j + 1], st[j + 4:]
                 else: lhs, rhs = st.split(' = ', 1)
                 try:
+                    if 'closure@' in rhs and rhs.startswith('{') and rhs.endswith(' }'): rhs = self._fix_closure_agg(block, sti, rhs)
                     v = self.rvalue(fr, rhs, fn)
                     if rhs.startswith('discriminant(') and isinstance(v, Enum) and lhs[0] == '_' and lhs[1:].isdigit() and fn.types.get(int(lhs[1:]), 'isize') != 'isize':
                         v = self.discr(v)              # `self as u8` of a fieldless enum with explicit discriminants
@@ -807,6 +827,10 @@ class Engine:
                     r0 = args[0]
                     while isinstance(r0, Ref) and isinstance(r0.get(), Ref): r0 = r0.get()
                     args[0] = r0 if isinstance(r0, Ref) else Ref([v], 0)
+                else:
+                    # provided (default) method of a crate trait called on a trait object: the body is generic in Self
+                    d = [g for g in self.ix.by_simple.get(meth, []) if (g.name == trait + '::' + meth or g.name.endswith('::' + trait + '::' + meth)) and '<impl at' not in g.name and len(g.args) == len(args)]
+                    if len(d) == 1: return d[0]
                 return f
             if x.startswith(('{', 'Pin<')): return None
             xs = type_key(x)
@@ -849,8 +873,21 @@ class Engine:
         if len(cands) > 1:
             c2 = [f for f in cands if f.name == cpath]
             if len(c2) == 1: return c2[0]
+            if len({self.ix.body_hash(f) for f in cands}) == 1: return cands[0]          # same-named tuple-struct constructors etc.: identical bodies
             raise EngineError(f'ambiguous free fn {c}: {[f.name for f in cands]}')
         return None
+
+    def _alias_target(self, file, name):
+        """last path segment of the right-hand side of `type name<..> = Target<..>;` in `file` (None if `name` is not a type alias there)"""
+        key = ('alias', file, name)
+        if key not in self._pcache:
+            r = None
+            try:
+                m = re.search(r'\btype ' + re.escape(name) + r'\b[^=;{]*=\s*([\w:]+)', '\n'.join(self.ix.src(file)))
+                if m: r = m.group(1).split('::')[-1]
+            except Exception: r = None
+            self._pcache[key] = r
+        return self._pcache[key]
 
     def _find_impl(self, meth, trait, ty, nargs, arg0=None):
         """ty is a printed type key (possibly module-qualified when the bare name is ambiguous crate-wide)"""
@@ -868,7 +905,7 @@ class Engine:
             selfkey = type_key(f.args[0]) if f.args else None
             known = sty is not None and not sty.startswith('$') and sty not in ('name', 'Self')
             if known:
-                if sty != bare: continue                                          # impl block of another type (e.g. `Source::new(text: BString)`)
+                if sty != bare and not (selfkey is not None and last_seg(selfkey) == bare and self._alias_target(f.file, sty) == bare): continue   # impl block of another type (e.g. `Source::new(text: BString)`); `impl Alias<..>` of a type alias is accepted
                 out.append((2 if selfkey == ty else (1 if (mod is None or f.name.startswith(mod + '::<impl')) else 0), f)); continue
             if selfkey == ty or type_key(f.ret) == ty: out.append((1, f))        # macro-generated impl: Self type unknown, go by receiver / return type
         if out:
@@ -888,6 +925,42 @@ class Engine:
         self._res_cache[key] = r
         return r
 
+    def _fix_closure_agg(self, block, sti, rhs):
+        """rustc's MIR pretty-printer zips the upvar operands of a closure aggregate with the names of the captured VARIABLES; with
+        disjoint field captures (edition 2021) there are more upvars than variables and the trailing operands are not printed.
+        The missing operands are the temporaries assigned immediately before the aggregate (in capture order): recover them, and
+        fail loudly if the shape is not exactly that."""
+        m = re.fullmatch(r'(\{(?:async )?closure@[^}]*\}) \{ (.*) \}', rhs)
+        if not m: return rhs
+        key = ('closure_upvars', m.group(1))
+        need = self._pcache.get(key)
+        if need is None:
+            c = self.ix.closure_by_span.get(m.group(1).replace('{async closure@', '{closure@'))
+            need = 0
+            if c:
+                cf = c[0] if c[0].blocks is not None else self.ix.body(c[0])
+                for b in cf.blocks.values():
+                    for st in b:
+                        for k in re.findall(r'\(\(?\*?_1\)?\.(\d+): ', st): need = max(need, int(k) + 1)
+            self._pcache[key] = need
+        ops = split_top(m.group(2))
+        if need <= len(ops): return rhs
+        given = []
+        for o in ops:
+            mm = re.fullmatch(r'\w+: (?:move|copy) _(\d+)', o.strip())
+            if not mm: raise EngineError('closure aggregate with unprinted upvars has a non-local operand: ' + rhs)
+            given.append(int(mm.group(1)))
+        temps = []
+        for st in reversed(block[:sti]):
+            mm = re.match(r'_(\d+) = ', st)
+            if not mm: break
+            temps.insert(0, int(mm.group(1)))
+        if not given or given[0] not in temps: raise EngineError('cannot recover unprinted closure upvars: ' + rhs)
+        i = temps.index(given[0]); cand = temps[i:i + need]
+        if len(cand) != need or cand[:len(given)] != given: raise EngineError('cannot recover unprinted closure upvars: ' + rhs)
+        self.notes.add('closure aggregate with upvars elided by the MIR pretty-printer recovered from the preceding temporaries')
+        return m.group(1) + ' { ' + ', '.join(f'up{j}: move _{t}' for j, t in enumerate(cand)) + ' }'
+
     def closure_fn(self, clo):
         span = clo.ty.replace('{async closure@', '{closure@')
         c = self.ix.closure_by_span.get(span)
@@ -899,6 +972,7 @@ class Engine:
         if isinstance(clo_v, Agg) and clo_v.ty and 'closure@' in clo_v.ty:
             fn = self.closure_fn(clo_v)
             env = (clo if isinstance(clo, Ref) else Ref([clo_v], 0)) if fn.byref else clo_v
+            while isinstance(env, Ref) and isinstance(env.get(), Ref): env = env.get()          # &mut Box<dyn FnMut> etc.: the closure environment is the innermost reference
             return self.call_mir(fn, [env] + list(args), env0=clo_v.env)
         if isinstance(clo_v, FnItem): return self.call(clo_v.name, list(args))
         if callable(clo_v): return clo_v(*args)
